@@ -216,6 +216,11 @@ pub fn taxonomy(max_defs: usize) -> BoxedStrategy<Taxonomy> {
                     (Some(c), 0) if !defs.iter().any(|d| &d.name == c) && !c.contains('-') && !c.contains(':') => c.clone(),
                     _ => format!("d{i}"),
                 };
+                // a second row for a def that exists already (the last row of a name is the definition): its supertypes
+                // are taken from the defs *before the first row of that name*, so the table stays acyclic
+                let redefine: Option<usize> = if flavour % 8 == 5 && defs.len() > 4 { Some(3 + idx(edges.first().map_or(0, |e| e.0), defs.len() - 3)) } else { None };
+                let first_row_of = |n: &str| defs.iter().position(|d| d.name == n).unwrap_or(0);
+                let limit = redefine.map_or(defs.len(), |j| first_row_of(&defs[j].name).max(1));
                 let mut is: Vec<RVal> = vec![];
                 for (e, kind) in &edges {
                     match kind {
@@ -224,7 +229,7 @@ pub fn taxonomy(max_defs: usize) -> BoxedStrategy<Taxonomy> {
                         2 => is.push(RVal::num(*e as f64)),
                         3 => is.push(RVal::Symbol("choice".into())),
                         4 => is.push(RVal::Symbol("entity".into())),
-                        _ => is.push(RVal::Symbol(defs[idx(*e, defs.len())].name.clone())),
+                        _ => is.push(RVal::Symbol(defs[idx(*e, limit)].name.clone())),
                     }
                 }
                 let mut extra = RDict::new();
@@ -252,7 +257,17 @@ pub fn taxonomy(max_defs: usize) -> BoxedStrategy<Taxonomy> {
                     3 => {
                         extra.insert("mandatory".into(), RVal::Marker);
                     }
+                    4 => {
+                        // names over a tiny alphabet joined by ':' (feature-key style): `k:l` + `m` and `k` + `l:m` read alike when glued
+                        const POOL: &[&str] = &["k", "l", "m", "k:l", "l:m", "k:l:m", "l:k", "m:l", "k:m", "m:k:l"];
+                        name = POOL[idx(edges.first().map_or(flavour as u16 * 257, |e| e.0), POOL.len())].to_string();
+                    }
                     _ => {}
+                }
+                if let Some(j) = redefine {
+                    let name = defs[j].name.clone();
+                    defs.push(DefSpec { name, is, has_is: true, extra });
+                    continue;
                 }
                 let has_is = flavour != 255;
                 // names are unique: a second def of the same name would replace the first and could close a cycle
